@@ -154,8 +154,8 @@ def check_target_discipline_one(ctx: Ctx) -> None:
         ctx.check(s.caller.qualname == m.qualname, s.caller, s.node, "caller of get_limited_price", m.qualname, s.caller.qualname)
 
 
-@rule("C15.H1", "mechanism shared with C13: the before-order hook runs before acceptance (hence before tick rounding) for every order in both phases", "T5 ordering (same rule as C13.R3)", floor=8)
+@rule("C15.H1", "mechanism shared with C13: the before-order hook runs before acceptance (hence before tick rounding) for every order in both phases", "T5 ordering (the before-order part of C13.R3)", floor=1)
 def h1(ctx: Ctx) -> None:
-    from .c13 import r3 as order_rule
+    from .c13 import check_call_sites
 
-    order_rule(ctx)
+    check_call_sites(ctx, {"before_order"})
